@@ -83,6 +83,7 @@ func NewExternalPromise(threadPool *ThreadPool) *Promise {
 		ThreadPool: threadPool,
 	}
 	p.wg.Add(1)
+	verifEvent("newx", p, nil)
 	return p
 }
 
@@ -144,13 +145,17 @@ func (p *Promise) IsResolved() bool {
 
 // Wait for the result of the promise.
 func (p *Promise) AwaitSync() (value.Value, *value.StackTrace, value.Value) {
+	verifEvent("syw", p, nil)
 	p.wg.Wait()
+	verifEvent("sywd", p, nil)
 	return p.result, p.stackTrace, p.err
 }
 
 // Wait for the result of the promise. Panics on error.
 func (p *Promise) MustAwaitSync() value.Value {
+	verifEvent("syw", p, nil)
 	p.wg.Wait()
+	verifEvent("sywd", p, nil)
 	if p.err.IsNotUndefined() {
 		panic(p.err)
 	}
@@ -168,49 +173,69 @@ func (p *Promise) RegisterContinuationUnsafe(continuation *Promise) {
 }
 
 func (p *Promise) ResolveReject(result, err value.Value) {
+	verifYield()
+	verifEvent("res-rr", p, nil)
 	p.m.Lock()
+	verifEvent("resl", p, nil)
+	verifYield()
 
 	queue := p.ThreadPool.TaskQueue
 	p.Body = nil
 	p.ThreadPool = nil
 	p.result = result
 	p.err = err
+	verifEvent("pub", p, nil)
 	p.wg.Done()
 	p.enqueueContinuations(queue)
 
+	verifEvent("resu", p, nil)
 	p.m.Unlock()
 }
 
 func (p *Promise) Resolve(result value.Value) {
+	verifYield()
+	verifEvent("res-ok", p, nil)
 	p.m.Lock()
+	verifEvent("resl", p, nil)
+	verifYield()
 
 	queue := p.ThreadPool.TaskQueue
 	p.Body = nil
 	p.ThreadPool = nil
 	p.result = result
+	verifEvent("pub", p, nil)
 	p.wg.Done()
 	p.enqueueContinuations(queue)
 
+	verifEvent("resu", p, nil)
 	p.m.Unlock()
 }
 
 func (p *Promise) Reject(err value.Value, stackTrace *value.StackTrace) {
+	verifYield()
+	verifEvent("res-err", p, nil)
 	p.m.Lock()
+	verifEvent("resl", p, nil)
+	verifYield()
 
 	queue := p.ThreadPool.TaskQueue
 	p.Body = nil
 	p.ThreadPool = nil
 	p.err = err
 	p.stackTrace = stackTrace
+	verifEvent("pub", p, nil)
 	p.wg.Done()
 	p.enqueueContinuations(queue)
 
+	verifEvent("resu", p, nil)
 	p.m.Unlock()
 }
 
 func (p *Promise) enqueueContinuations(queue chan *Promise) {
 	for _, cont := range p.continuations {
+		verifYield()
 		queue <- cont
+		verifEvent("enqc", p, cont)
 	}
 	p.continuations = nil
 }
